@@ -4,40 +4,131 @@
    translated as a function of its own (`MsgVariants::new::closure1`: parameter, captured variables; result: its value and
    the updated checker).
 
-   Stub: `MsgVariant::new(sig, &mut checker, msg_attr, attrs)` answers the variant made of exactly these and the checker with
-   one more entry in `used` (GenericsRefine.GEN); `attr_msg()` / `attrs_to_forward()` / `into_sig()` of the description are translated too (parser/variant_descs.rs). *)
+   `MsgVariant::new` itself is translated too (its `&mut CheckGenerics` parameter by state passing: it answers the variant and
+   the checker afterwards), as are `attr_msg()` / `attrs_to_forward()` / `into_sig()` of the description
+   (parser/variant_descs.rs). Stubs: `process_fields` (the fields of a signature; its traversal of the signature is
+   recorded in the checker), syn's `visit_type` / `visit_path` (recorded), `StripSelfPath.fold_path`, `to_case`. *)
 From Coq Require Import String List Bool Arith Lia.
 Require Import SV.Model.Imp SV.Model.GenImpGenerics SV.Facts.ImpFacts SV.Facts.MacroRefine SV.Facts.GenericsRefine.
 Import ListNotations.
 Open Scope string_scope.
 Open Scope list_scope.
 
-(* the description of one method: its `sv::msg` attribute if it has one (kind, everything else), the attributes to forward,
-   the signature *)
-Record desc := { d_msg : option (string * value); d_forward : value; d_sig : value }.
-Definition msg_attr_v (m : string * value) : value := VRec "MsgAttr" [("msg_type", kind_v (fst m)); ("other", snd m)].
+(* the description of one method: its `sv::msg` attribute if it has one (kind, the response type it names - an Option - and
+   everything else), the attributes to forward, the signature (its name, its return type, everything else) *)
+Record desc := { d_msg : option (string * value * value); d_forward : value; d_sig : value }.
+Definition msg_attr_v (m : string * value * value) : value :=
+  VRec "MsgAttr" [("msg_type", kind_v (fst (fst m))); ("resp_type", snd (fst m)); ("other", snd m)].
 Definition desc_v (x : desc) : value :=
   VRec "VariantDesc" [("msg_attr", match d_msg x with Some m => some (msg_attr_v m) | None => none end);
                       ("attrs_to_forward", d_forward x); ("sig", d_sig x)].
+Definition sig_v (ident output other : value) : value := VRec "Signature" [("ident", ident); ("output", output); ("other", other)].
 
-Definition of_kind (ty : string) (x : desc) : bool := match d_msg x with Some (k, _) => k =? ty | None => false end.
-Definition variant_of (x : desc) : value :=
-  VCon "MsgVariant" [d_sig x; match d_msg x with Some m => msg_attr_v m | None => none end; d_forward x].
-Definition traversed (x : desc) : value := VCon "visited the signature" [d_sig x].
+Definition of_kind (ty : string) (x : desc) : bool := match d_msg x with Some (k, _, _) => k =? ty | None => false end.
 
+(* `MsgVariant::new` (translated): the variant of a method - named after the method, carrying the method's own fields,
+   attribute and forwarded attributes - and, for a query, its response type: the one written in `resp=` when there is one,
+   else the one the signature returns; the generics checker traverses the signature, and for a query that response type *)
+Definition response_of (k : string) (resp ident output other : value) : value * list value :=
+  let sg := sig_v ident output other in
+  if k =? "Query" then
+    match resp with
+    | VCon "Some" [r] =>
+        let q := quote_v "# resp_type" [("resp_type", r)] in
+        (some q, [VCon "visited the type" [q]])
+    | _ =>
+        let rt := VCon "extract_return_type" [output] in
+        (some (quote_v "# return_type" [("return_type", rt)]), [VCon "visited the path" [VCon "folded by" [VCon "StripSelfPath" []; rt]]])
+    end
+  else (none, []).
+
+Definition variant_v (k : string) (resp r fwd ident output other : value) : value :=
+  let sg := sig_v ident output other in
+  VRec "MsgVariant" [("name", VCon ".to_case" [ident; VCon "Case::UpperCamel" []]); ("function_name", ident);
+                     ("fields", VCon "fields of" [sg]); ("return_type", fst (response_of k resp ident output other));
+                     ("msg_attr", msg_attr_v (k, resp, r)); ("attrs_to_forward", fwd)].
+Definition traversal (k : string) (resp ident output other : value) : list value :=
+  VCon "visited the signature" [sig_v ident output other] :: snd (response_of k resp ident output other).
+
+Lemma evals_list_compute_calls P K d es en r :
+  (forall g h, eval_list (call P d (K + h)) (K + g) es en = Some r) -> evals_list P d es en r.
+Proof.
+  intros H. exists K. intros f fl Hf Hfl. replace f with (K + (f - K)) by lia. replace fl with (K + (fl - K)) by lia. apply H.
+Qed.
+
+(* entries appended one after the other *)
+Definition push_all (used ms : list value) : list value := fold_left (fun acc m => acc ++ [m]) ms used.
+Lemma push_all_app used ms : push_all used ms = used ++ ms.
+Proof.
+  revert used. induction ms as [|m ms IH]; intros used; cbn [push_all fold_left]; [rewrite app_nil_r; reflexivity|].
+  fold (push_all (used ++ [m]) ms). rewrite IH, <- app_assoc. reflexivity.
+Qed.
+
+Local Arguments String.eqb _ _ : simpl nomatch.
 Local Ltac cmp K := apply (evals_compute _ K); intros ?gg ?fl; reflexivity.
 
-(* the closure: a method without `sv::msg` or of another kind gives nothing and leaves the checker alone; a method of the asked
-   kind gives its variant and the checker after its signature was traversed *)
-Lemma translated_variants_closure d (x : desc) ty gens used :
-  calls GEN (S (S d)) "MsgVariants::new::closure1" [desc_v x; kind_v ty; checker_v gens used]
-    (CVal (VCon "()" [if of_kind ty x then some (variant_of x) else none;
-                      checker_v gens (if of_kind ty x then used ++ [traversed x] else used)])).
+(* a response type named in the attribute is `Some r` or `None` *)
+Definition is_option (v : value) : Prop := (exists r, v = VCon "Some" [r]) \/ v = VCon "None" [].
+
+Theorem translated_msg_variant_new d k resp r fwd ident output other gens used :
+  is_option resp ->
+  calls GEN (S (S d)) "MsgVariant::new" [sig_v ident output other; checker_v gens used; msg_attr_v (k, resp, r); fwd]
+    (CVal (VCon "()" [variant_v k resp r fwd ident output other; checker_v gens (used ++ traversal k resp ident output other)])).
 Proof.
-  destruct x as [[[k r]|] f sg]; unfold of_kind; cbn [d_msg].
-  - destruct (k =? ty) eqn:Ek.
+  intros Hr. rewrite <- push_all_app. unfold variant_v, traversal, response_of.
+  destruct (k =? "Query") eqn:Ek.
+  - apply String.eqb_eq in Ek. subst k.
+    destruct Hr as [[r0 ->] | ->];
+      (eapply calls_intro with (c := CVal _); try reflexivity;
+       apply (evals_compute_calls _ 40); intros gg hh; reflexivity).
+  - destruct Hr as [[r0 ->] | ->];
+      (eapply calls_intro with (c := CVal _); try reflexivity;
+       apply (evals_compute_calls _ 40); intros gg hh; simpl; rewrite ?andb_true_r, Ek; reflexivity).
+Qed.
+
+(* a method description whose signature and attribute have the shapes above *)
+Definition wf_desc (x : desc) : Prop :=
+  (exists ident output other, d_sig x = sig_v ident output other) /\
+  match d_msg x with Some (_, resp, _) => is_option resp | None => True end.
+
+Definition variant_of (x : desc) : value :=
+  match d_msg x, d_sig x with
+  | Some (k, resp, r), VRec "Signature" [("ident", ident); ("output", output); ("other", other)] =>
+      variant_v k resp r (d_forward x) ident output other
+  | _, _ => VUnit
+  end.
+Definition traversed (x : desc) : list value :=
+  match d_msg x, d_sig x with
+  | Some (k, resp, _), VRec "Signature" [("ident", ident); ("output", output); ("other", other)] => traversal k resp ident output other
+  | _, _ => []
+  end.
+
+(* the closure: a method without `sv::msg` or of another kind gives nothing and leaves the checker alone; a method of the asked
+   kind gives its variant and the checker after its traversal *)
+Lemma translated_variants_closure d (x : desc) ty gens used : wf_desc x ->
+  calls GEN (S (S (S d))) "MsgVariants::new::closure1" [desc_v x; kind_v ty; checker_v gens used]
+    (CVal (VCon "()" [if of_kind ty x then some (variant_of x) else none;
+                      checker_v gens (if of_kind ty x then used ++ traversed x else used)])).
+Proof.
+  intros [(ident & output & other & Hs) Hm].
+  destruct x as [[[[k resp] r]|] f sg]; cbn [d_sig d_msg] in *; subst sg; unfold of_kind, variant_of, traversed; cbn [d_msg d_sig d_forward].
+  - pose proof (translated_msg_variant_new d k resp r f ident output other gens used Hm) as Hnew.
+    destruct (k =? ty) eqn:Ek.
     + eapply calls_intro with (c := CVal _); try reflexivity.
-      apply (evals_compute_calls _ 40). intros gg hh. simpl. rewrite ?andb_true_r, Ek. reflexivity.
+      simpl fn_body. cbn [app combine fn_params].
+      eapply ev_block; [|reflexivity].
+      eapply ev_stmts_let;
+        [ eapply ev_block; [|reflexivity];
+          (eapply ev_stmts_let; [apply (evals_compute_calls _ 20); intros gg hh; reflexivity | reflexivity |]); cbn [app];
+          (eapply ev_stmts_let; [apply (evals_compute_calls _ 20); intros gg hh; reflexivity | reflexivity |]); cbn [app];
+          (eapply ev_stmts_expr; [apply (evals_compute _ 20); intros gg fl; simpl; rewrite ?andb_true_r, Ek; reflexivity |]);
+          apply ev_stmts_tail; apply ev_con; eapply ev_list_cons; [|apply ev_list_nil];
+          eapply ev_block; [|reflexivity];
+          (eapply ev_stmts_let;
+             [ eapply ev_call; [apply (evals_list_compute_calls _ 20); intros gg hh; reflexivity | exact Hnew] | reflexivity |]);
+          apply (evals_stmts_compute _ 14); intros gg fl; reflexivity
+        | reflexivity | ].
+      cbn [app]. apply ev_stmts_tail. cmp 14.
     + eapply calls_intro with (c := CRet _); try reflexivity.
       apply (evals_compute_calls _ 40). intros gg hh. simpl. rewrite ?andb_true_r, Ek. reflexivity.
   - apply (calls_of_run _ _ 40); [reflexivity | vm_compute; reflexivity].
@@ -56,16 +147,16 @@ Proof. destruct wc as [[ps o]|]; [apply translated_filter_wheres | apply transla
    in declaration order, built from that method's own signature, attribute and forwarded attributes - and no other; the
    generics checker is threaded through exactly those methods, and the type's used / unused generics and kept bounds are
    computed from what it collected *)
-Theorem translated_msg_variants_new d (ds : list desc) ty gens wc :
+Theorem translated_msg_variants_new d (ds : list desc) ty gens wc : Forall wf_desc ds ->
   let sel := filter (of_kind ty) ds in
-  let used := map traversed sel in
-  calls GEN (S (S (S d))) "MsgVariants::new" [VArr (map desc_v ds); kind_v ty; VArr gens; wc_v wc]
+  let used := flat_map traversed sel in
+  calls GEN (S (S (S (S d)))) "MsgVariants::new" [VArr (map desc_v ds); kind_v ty; VArr gens; wc_v wc]
     (CVal (VRec "MsgVariants"
        [("variants", VArr (map variant_of sel)); ("used_generics", VArr used);
         ("unused_generics", VArr (filter (fun g => negb (mem g used)) gens));
         ("where_predicates", VArr (kept_preds used wc)); ("msg_ty", kind_v ty)])).
 Proof.
-  intros sel used.
+  intros Hwf sel used.
   set (params := [("source", VArr (map desc_v ds)); ("msg_ty", kind_v ty); ("all_generics", VArr gens); ("unfiltered_where_clause", wc_v wc)]).
   eapply calls_intro with (c := CVal (VRec "MsgVariants"
        [("variants", VArr (map variant_of sel)); ("used_generics", VArr used);
@@ -73,10 +164,10 @@ Proof.
         ("where_predicates", VArr (kept_preds used wc)); ("msg_ty", kind_v ty)])) (en' := params); try reflexivity.
   simpl fn_body. cbn [app combine fn_params]. fold params.
   match goal with |- context [EFor "fmc_i1" ?lo ?hi ?b] =>
-    destruct (ev_for_inv GEN (S (S d)) "fmc_i1" b
+    destruct (ev_for_inv GEN (S (S (S d))) "fmc_i1" b
                 (fun j en' => en' = ("fmc_acc1", VArr (map variant_of (filter (of_kind ty) (firstn j ds)))) ::
                                     ("fmc_src1", VArr (map desc_v ds)) ::
-                                    ("generics_checker", checker_v gens (map traversed (filter (of_kind ty) (firstn j ds)))) :: params)
+                                    ("generics_checker", checker_v gens (flat_map traversed (filter (of_kind ty) (firstn j ds)))) :: params)
                 (length ds) 0
                 (("fmc_acc1", VArr []) :: ("fmc_src1", VArr (map desc_v ds)) :: ("generics_checker", checker_v gens []) :: params))
       as (enf & Hfor & Hinv) end.
@@ -84,9 +175,10 @@ Proof.
   - intros j en' Hj ->.
     destruct (nth_error ds j) as [x|] eqn:Hnth; [|apply nth_error_None in Hnth; lia].
     assert (Hm : nth_error (map desc_v ds) j = Some (desc_v x)) by (rewrite nth_error_map, Hnth; reflexivity).
-    rewrite (firstn_snoc _ _ _ Hnth), filter_snoc, !map_app.
-    pose proof (translated_variants_closure d x ty gens (map traversed (filter (of_kind ty) (firstn j ds)))) as Hclo.
-    destruct (of_kind ty x); cbn [map]; rewrite ?app_nil_r;
+    assert (Hx : wf_desc x) by (rewrite Forall_forall in Hwf; apply Hwf; eapply nth_error_In; exact Hnth).
+    rewrite (firstn_snoc _ _ _ Hnth), filter_snoc, map_app, flat_map_app.
+    pose proof (translated_variants_closure d x ty gens (flat_map traversed (filter (of_kind ty) (firstn j ds))) Hx) as Hclo.
+    destruct (of_kind ty x); cbn [map flat_map]; rewrite ?app_nil_r;
       (eexists; eexists; split;
         [ eapply ev_block; [|reflexivity];
           eapply ev_stmts_let;
@@ -95,7 +187,7 @@ Proof.
           apply (evals_stmts_compute _ 14); intros gg fl; reflexivity
         | reflexivity ]).
   - rewrite Hinv in Hfor. cbn [Nat.add] in Hfor. rewrite firstn_all in Hfor. fold sel in Hfor. fold used in Hfor.
-    assert (Hlen : forall gg fl en, eval (call GEN (S (S d)) fl) (4 + gg) (ECall "len" [EVar "fmc_src1"])
+    assert (Hlen : forall gg fl en, eval (call GEN (S (S (S d))) fl) (4 + gg) (ECall "len" [EVar "fmc_src1"])
                      (("fmc_acc1", VArr []) :: ("fmc_src1", VArr (map desc_v ds)) :: en) =
                    Some (CVal (VNat (length ds)), ("fmc_acc1", VArr []) :: ("fmc_src1", VArr (map desc_v ds)) :: en))
       by (intros gg fl en; simpl; rewrite map_length; reflexivity).
@@ -111,11 +203,11 @@ Proof.
           | reflexivity | ];
         cbn [app];
         eapply ev_stmts_let;
-          [ eapply ev_call; [apply (evals_list_compute _ 8); intros gg fl; reflexivity | apply (translated_used_unused (S d))]
+          [ eapply ev_call; [apply (evals_list_compute _ 8); intros gg fl; reflexivity | apply (translated_used_unused (S (S d)))]
           | reflexivity | ];
         cbn [app];
         eapply ev_stmts_let;
-          [ eapply ev_call; [apply (evals_list_compute _ 8); intros gg fl; reflexivity | apply filter_wheres_any]
+          [ eapply ev_call; [apply (evals_list_compute _ 8); intros gg fl; reflexivity | apply (filter_wheres_any (S d))]
           | reflexivity | ];
         cbn [app]; apply ev_stmts_tail; cmp 20
       | reflexivity ].
@@ -123,9 +215,9 @@ Qed.
 
 (* what is selected: exactly the methods whose `sv::msg` names the asked kind *)
 Lemma selected_methods ty (ds : list desc) x :
-  In x (filter (of_kind ty) ds) <-> In x ds /\ exists r, d_msg x = Some (ty, r).
+  In x (filter (of_kind ty) ds) <-> In x ds /\ exists resp r, d_msg x = Some (ty, resp, r).
 Proof.
   rewrite filter_In. unfold of_kind. split.
-  - intros [Hi H]. split; [exact Hi|]. destruct (d_msg x) as [[k r]|]; [|discriminate]. apply String.eqb_eq in H. subst k. eauto.
-  - intros [Hi [r ->]]. split; [exact Hi|]. apply String.eqb_refl.
+  - intros [Hi H]. split; [exact Hi|]. destruct (d_msg x) as [[[k resp] r]|]; [|discriminate]. apply String.eqb_eq in H. subst k. eauto.
+  - intros [Hi (resp & r & ->)]. split; [exact Hi|]. apply String.eqb_refl.
 Qed.
